@@ -56,6 +56,7 @@ enum Op {
     BufferStart,
     BufferEnd,
     Home,
+    FirstPrint,
     End,
     IsEndOfInput,
     Delete(u16),
@@ -158,6 +159,7 @@ fn parse_op(tok: &str) -> Option<Op> {
         ["bs"] => Op::BufferStart,
         ["be"] => Op::BufferEnd,
         ["mh"] => Op::Home,
+        ["mfp"] => Op::FirstPrint,
         ["me"] => Op::End,
         ["eoi"] => Op::IsEndOfInput,
         ["del", n] => Op::Delete(p_n(n)?),
@@ -227,6 +229,7 @@ fn apply(lb: &mut LineBuffer, op: &Op, r: &mut Rec) -> String {
         Op::BufferStart => b(lb.move_buffer_start()),
         Op::BufferEnd => b(lb.move_buffer_end()),
         Op::Home => b(lb.move_home()),
+        Op::FirstPrint => b(lb.move_to_first_print()),
         Op::End => b(lb.move_end()),
         Op::IsEndOfInput => b(lb.is_end_of_input()),
         Op::Delete(n) => match lb.delete(*n, r) {
@@ -441,7 +444,7 @@ fn all_ops(text: &str, counts: &[u32]) -> Vec<String> {
             o.push(format!("ld:{}:{}", n, pc));
         }
     }
-    for op in ["bs", "be", "mh", "me", "eoi", "kl", "kb", "dl", "db"] {
+    for op in ["bs", "be", "mh", "mfp", "me", "eoi", "kl", "kb", "dl", "db"] {
         o.push(op.to_string());
     }
     let chars = search_chars(text);
@@ -518,7 +521,7 @@ fn c04_ops(text: &str) -> Vec<String> {
             o.push(format!("ld:{}:{}", n, pc));
         }
     }
-    for op in ["bs", "be", "mh", "me", "kl", "kb", "dl", "db", "tc", "ew:C", "ew:L", "ew:U"] {
+    for op in ["bs", "be", "mh", "mfp", "me", "kl", "kb", "dl", "db", "tc", "ew:C", "ew:L", "ew:U"] {
         o.push(op.to_string());
     }
     let chars = search_chars(text);
@@ -634,7 +637,7 @@ fn rand_op(rng: &mut Rng, bs: &[usize], alpha: &[char], c04: bool) -> String {
         9 => format!("np:{}", n),
         10 => format!("mb:{}", n),
         11 => format!("mf:{}", n),
-        12 => rng.pick(&["bs", "be", "mh", "me", "eoi"]).to_string(),
+        12 => rng.pick(&["bs", "be", "mh", "mfp", "me", "eoi"]).to_string(),
         13 => format!("del:{}", n),
         14 => format!("bsp:{}", n),
         15 => rng.pick(&["kl", "kb", "dl", "db"]).to_string(),
